@@ -49,7 +49,7 @@ class Exec(Engine):
             for o, p1 in s.ev(n.func.value, p):
                 if isinstance(o, SContract):
                     raise OutOfSubset("attribute of a contract")
-                if isinstance(o, (SSeq, STup, SStr, SDict, SSet)):
+                if isinstance(o, (SSeq, STup, SStr, SDict, SSet, SMap, SZip)):
                     for av, kw, p2 in args_then(p1):
                         yield from s.method(n, o, n.func.attr, av, kw, p2)
                     continue
@@ -224,6 +224,22 @@ class Exec(Engine):
                 q.pc.append(z3.And(0 <= r, r < sq.n, z3.Select(sq.arr, r) == v.t, s.forall(0, r, lambda k: z3.Select(sq.arr, k) != v.t)))
                 yield SInt(r), q
             return
+        if isinstance(o, SMap) and attr == "get":
+            k = av[0]
+            if getattr(k, "kind", None) != o.kk:
+                raise OutOfSubset("symbolic dict .get with a key of another kind")
+            d = av[1] if len(av) > 1 else None
+            if d is None or getattr(d, "kind", None) != o.vk:
+                raise OutOfSubset("symbolic dict .get without a default of the value kind")
+            yield wrap(z3.If(z3.Select(o.has, k.t), z3.Select(o.val, k.t), d.t), o.vk), p
+            return
+        if isinstance(o, SZip) and attr == "append":
+            v = av[0]
+            if not isinstance(v, STup) or len(v.items) != len(o.eks) or any(getattr(it, "kind", None) != ek for it, ek in zip(v.items, o.eks)):
+                raise OutOfSubset("append of a differently shaped tuple to a list of tuples")
+            s.rebind(n, p, SZip([z3.Store(a, o.n, it.t) for a, it in zip(o.arrs, v.items)], o.n + 1, o.eks, o.pykind))
+            yield SConc(None), p
+            return
         if isinstance(o, SDict):
             if attr == "pop" and av and isinstance(av[0], SConc):
                 k = av[0].v
@@ -283,7 +299,7 @@ class Exec(Engine):
 
     def bi_len(s, n, p):
         for v, p1 in s.ev(n.args[0], p):
-            if isinstance(v, (SSeq, STup)):
+            if isinstance(v, (SSeq, STup, SZip)):
                 yield SInt(v.n), p1
             elif isinstance(v, SStr):
                 yield SInt(z3.Length(v.t)), p1
@@ -504,7 +520,20 @@ class Exec(Engine):
                 raise OutOfSubset("int()")
 
     def bi_set(s, n, p):
-        raise OutOfSubset("set()")
+        """set(seq) for homogeneous int/obj sequences: characteristic predicate (membership only; no cardinality)"""
+        if not n.args:
+            raise OutOfSubset("set() without argument")
+        for v, p1 in s.ev(n.args[0], p):
+            if isinstance(v, SSet):
+                yield v, p1
+                continue
+            sq = s.as_seq(v, p1)
+            if sq.ek not in ("int", "obj"):
+                raise OutOfSubset("set() of non int/obj elements")
+            x = z3.Const("setx!", sort_of(sq.ek))
+            k = fresh("sk")
+            mem = z3.Lambda([x], z3.Exists([k], z3.And(0 <= k, k < sq.n, z3.Select(sq.arr, k) == x)))
+            yield SSet(mem, sq.ek), p1
 
     def bi_enumerate(s, n, p):
         raise OutOfSubset("enumerate outside for")
@@ -537,6 +566,11 @@ class Exec(Engine):
 
     def assign(s, target, v, p):
         if isinstance(target, ast.Name):
+            hint = getattr(s, "local_types", {}).get(target.id)
+            if hint and isinstance(v, SDict) and not v.d and hint[0] == "map":
+                v = SMap.empty(hint[1], hint[2])
+            elif hint and isinstance(v, STup) and not v.items and hint[0] == "zip":
+                v = SZip.empty(hint[1])
             p.bind(target.id, v)
         elif isinstance(target, (ast.Tuple, ast.List)):
             if any(isinstance(t, ast.Starred) for t in target.elts):
@@ -558,7 +592,11 @@ class Exec(Engine):
         elif isinstance(target, ast.Subscript):
             (o, _), = list(s.ev(target.value, p))
             (k, _), = list(s.ev(target.slice, p))
-            if isinstance(o, SDict) and isinstance(k, SConc) and isinstance(target.value, ast.Name):
+            if isinstance(o, SMap) and isinstance(target.value, ast.Name):
+                if getattr(k, "kind", None) != o.kk or getattr(v, "kind", None) != o.vk:
+                    raise OutOfSubset("store of another key/value kind into a symbolic dict")
+                p.bind(target.value.id, SMap(z3.Store(o.has, k.t, z3.BoolVal(True)), z3.Store(o.val, k.t, v.t), o.kk, o.vk))
+            elif isinstance(o, SDict) and isinstance(k, SConc) and isinstance(target.value, ast.Name):
                 d = dict(o.d)
                 d[k.v] = v
                 p.bind(target.value.id, SDict(d))
@@ -697,12 +735,27 @@ class Exec(Engine):
                 pa = p1.fork()
                 pa.pc.append(t)
                 if z3.is_true(t) or s.feasible(pa):
-                    yield from s.exec_block(st.body, [pa])
+                    yield from s.block_or_raise(st.body, pa)
             if not z3.is_true(t):
                 pb = p1.fork()
                 pb.pc.append(z3.Not(t))
                 if z3.is_false(t) or s.feasible(pb):
-                    yield from s.exec_block(st.orelse, [pb])
+                    yield from s.block_or_raise(st.orelse, pb)
+
+    def block_or_raise(s, stmts, p):
+        """a block that ends in an unconditional `raise X(...)`: if building the message leaves the subset, the block is abstracted to
+        `raise X` (opt-in per kernel via eng.abstract_raise_blocks; recorded: exception-freedom of the message construction is then not proved)"""
+        if not (getattr(s, "abstract_raise_blocks", False) and stmts and isinstance(stmts[-1], ast.Raise) and stmts[-1].exc is not None):
+            return s.exec_block(stmts, [p])
+        nob, q = len(s.obligations), p.fork()
+        try:
+            return s.exec_block(stmts, [q])
+        except OutOfSubset as e:
+            del s.obligations[nob:]
+            ex = stmts[-1].exc
+            cls = ast.unparse(ex.func) if isinstance(ex, ast.Call) else ast.unparse(ex)
+            s.abstracted.add(f"message construction before `raise {cls}` (block abstracted to the raise; its own exception-freedom is not proved): {e}")
+            return [(Raise(cls.split(".")[-1], stmts[-1].lineno), p)]
 
     def st_With(s, st, p):
         s.abstracted.add("with-statement context manager (enter/exit effects not modelled)")
@@ -769,6 +822,10 @@ class Exec(Engine):
             return r
         if isinstance(v, SDict):
             return SDict({k: s.havoc_value(f"{name}_{k}", x) for k, x in v.d.items()})
+        if isinstance(v, SMap):
+            return SMap(fresh(name + "_has", z3.ArraySort(sort_of(v.kk), B)), fresh(name + "_val", z3.ArraySort(sort_of(v.kk), sort_of(v.vk))), v.kk, v.vk)
+        if isinstance(v, SZip):
+            return SZip([fresh(f"{name}_c{j}", z3.ArraySort(I, sort_of(k))) for j, k in enumerate(v.eks)], fresh(name + "_len"), v.eks, v.pykind)
         raise OutOfSubset(f"cannot havoc {name} = {v!r}")
 
     def havoc(s, names, p):
@@ -777,7 +834,7 @@ class Exec(Engine):
                 continue
             v = p.lookup(nme)
             nv = s.havoc_value(nme, v)
-            if isinstance(nv, SSeq):
+            if isinstance(nv, (SSeq, SZip)):
                 p.pc.append(nv.n >= 0)
             for f in reversed(p.frames):
                 if nme in f:
@@ -1006,6 +1063,7 @@ class Exec(Engine):
                 raise OutOfSubset(f"for loop at line {st.lineno} needs an invariant (modifies {a})")
         p.pc.append(n >= 0)
         k = fresh("fk")
+        mark = fresh_mark()
         body = p.fork()
         base = len(body.pc)
         body.pc.append(z3.And(0 <= k, k < n))
@@ -1019,8 +1077,10 @@ class Exec(Engine):
         for out, r in outs:
             if not (out is None or isinstance(out, Continue)):
                 raise OutOfSubset(f"for loop at line {st.lineno} needs an invariant (early exit)")
+        conds_all = []
         for out, r in reversed(outs):
             cond = z3.And(*r.pc[base + 1 :]) if len(r.pc) > base + 1 else z3.BoolVal(True)
+            conds_all.append(cond)
             for a in accs:
                 acc = r.lookup(a)
                 if not isinstance(acc, SSeq):
@@ -1028,6 +1088,16 @@ class Exec(Engine):
                 s.oblige(f"for-line{st.lineno}:one-append-per-iteration[{a}]", r, acc.n == 1, "engine", st.lineno)
                 e = z3.Select(acc.arr, 0)
                 vals[a] = e if vals[a] is None else z3.If(cond, e, vals[a])
+        # per-iteration values (results of .index, max, ... created in the generic body) become Skolem functions of k; the path
+        # conditions that define them are asserted for every iteration (one of the body's normal exits is taken)
+        consts, funs = fresh_since(mark, conds_all + [v for v in vals.values() if v is not None])
+        consts = [c0 for c0 in consts if not any(z3.eq(c0, body.lookup(a).arr) for a in accs if isinstance(body.lookup(a), SSeq))]
+        if funs:
+            raise OutOfSubset(f"for loop at line {st.lineno} needs an invariant (body defines quantified values)")
+        if consts:
+            sub_ = [(c0, fresh_fun("sk", I, c0.sort())(k)) for c0 in consts]
+            vals = {a: (z3.substitute(v, *sub_) if v is not None else None) for a, v in vals.items()}
+            p.pc.append(z3.ForAll([k], z3.Implies(z3.And(0 <= k, k < n), z3.Or(*[z3.substitute(c, *sub_) for c in conds_all]))))
         for a in accs:
             L0 = olds[a]
             R = fresh(a, z3.ArraySort(I, sort_of(L0.ek)))
